@@ -175,4 +175,159 @@
 #define os_atomic_rmw_loop_give_up(expr) \
 		os_atomic_rmw_loop_give_up_with_fence(relaxed, expr)
 
+#if defined(DISPATCH_VERIF) && DISPATCH_VERIF
+/*
+ * Verification hooks (guarded, add-only): every os_atomic_* operation owns a
+ * static site descriptor and calls two optional callbacks, `pre` before the
+ * access (schedule perturbation / steering point) and `post` after it (the
+ * observed old and new value). The callbacks are NULL unless a verification
+ * harness installs them. The definitions above are left untouched; with the
+ * guard off this block expands to nothing.
+ */
+struct dispatch_verif_site_s {
+	const char *dvs_expr;
+	const char *dvs_func;
+	const char *dvs_op;
+	const char *dvs_mo;
+	int dvs_line;
+	int dvs_class;
+	void *dvs_cookie;
+};
+typedef void (*dispatch_verif_pre_t)(struct dispatch_verif_site_s *,
+		const volatile void *);
+typedef void (*dispatch_verif_post_t)(struct dispatch_verif_site_s *,
+		const volatile void *, unsigned long long, unsigned long long, int,
+		unsigned);
+typedef void (*dispatch_verif_probe_t)(const char *, const volatile void *,
+		long, long);
+#ifdef __cplusplus
+extern "C" {
+#endif
+extern __attribute__((__visibility__("default")))
+dispatch_verif_pre_t _dispatch_verif_pre;
+extern __attribute__((__visibility__("default")))
+dispatch_verif_post_t _dispatch_verif_post;
+extern __attribute__((__visibility__("default")))
+dispatch_verif_probe_t _dispatch_verif_probe;
+#ifdef __cplusplus
+}
+#endif
+
+#define DISPATCH_VERIF_PROBE(kind, obj, a, b) do { \
+		if (__builtin_expect(_dispatch_verif_probe != 0, 0)) \
+			_dispatch_verif_probe((kind), (obj), (long)(a), (long)(b)); \
+	} while (0)
+
+#define _dv_site(e, o, m) \
+		static struct dispatch_verif_site_s _dvs = \
+				{ e, __func__, o, #m, __LINE__, 0, 0 }
+#define _dv_pre(a) do { \
+		if (__builtin_expect(_dispatch_verif_pre != 0, 0)) \
+			_dispatch_verif_pre(&_dvs, (a)); \
+	} while (0)
+#define _dv_post(a, ov, nv, ok) do { \
+		if (__builtin_expect(_dispatch_verif_post != 0, 0)) \
+			_dispatch_verif_post(&_dvs, (a), (unsigned long long)(ov), \
+					(unsigned long long)(nv), (ok), (unsigned)sizeof(*(a))); \
+	} while (0)
+
+#define _dv_load(p, m, e) ({ _dv_site(e, "load", m); \
+		__typeof__(p) _dvp = (p); _dv_pre(_dvp); \
+		_os_atomic_basetypeof(_dvp) _dvr = atomic_load_explicit( \
+				_os_atomic_c11_atomic(_dvp), memory_order_##m); \
+		_dv_post(_dvp, _dvr, _dvr, 1); _dvr; })
+#define _dv_store(p, v, m, e) ({ _dv_site(e, "store", m); \
+		__typeof__(p) _dvp = (p); _os_atomic_basetypeof(_dvp) _dvv = (v); \
+		_dv_pre(_dvp); \
+		atomic_store_explicit(_os_atomic_c11_atomic(_dvp), _dvv, \
+				memory_order_##m); \
+		_dv_post(_dvp, _dvv, _dvv, 1); })
+#define _dv_xchg(p, v, m, e) ({ _dv_site(e, "xchg", m); \
+		__typeof__(p) _dvp = (p); _os_atomic_basetypeof(_dvp) _dvv = (v); \
+		_dv_pre(_dvp); \
+		_os_atomic_basetypeof(_dvp) _dvr = atomic_exchange_explicit( \
+				_os_atomic_c11_atomic(_dvp), _dvv, memory_order_##m); \
+		_dv_post(_dvp, _dvr, _dvv, 1); _dvr; })
+#define _dv_cmpxchg(p, x, v, m, e) ({ _dv_site(e, "cmpxchg", m); \
+		__typeof__(p) _dvp = (p); \
+		_os_atomic_basetypeof(_dvp) _dvr = (x), _dvv = (v); _dv_pre(_dvp); \
+		_Bool _dvb = atomic_compare_exchange_strong_explicit( \
+				_os_atomic_c11_atomic(_dvp), &_dvr, _dvv, memory_order_##m, \
+				memory_order_relaxed); \
+		_dv_post(_dvp, _dvr, _dvb ? _dvv : _dvr, _dvb); _dvb; })
+#define _dv_cmpxchgv(p, x, v, g, m, e) ({ _dv_site(e, "cmpxchg", m); \
+		__typeof__(p) _dvp = (p); \
+		_os_atomic_basetypeof(_dvp) _dvr = (x), _dvv = (v); _dv_pre(_dvp); \
+		_Bool _dvb = atomic_compare_exchange_strong_explicit( \
+				_os_atomic_c11_atomic(_dvp), &_dvr, _dvv, memory_order_##m, \
+				memory_order_relaxed); \
+		_dv_post(_dvp, _dvr, _dvb ? _dvv : _dvr, _dvb); *(g) = _dvr; _dvb; })
+#define _dv_cmpxchgvw(p, x, v, g, m, e) ({ _dv_site(e, "cmpxchg", m); \
+		__typeof__(p) _dvp = (p); \
+		_os_atomic_basetypeof(_dvp) _dvr = (x), _dvv = (v); _dv_pre(_dvp); \
+		_Bool _dvb = atomic_compare_exchange_weak_explicit( \
+				_os_atomic_c11_atomic(_dvp), &_dvr, _dvv, memory_order_##m, \
+				memory_order_relaxed); \
+		_dv_post(_dvp, _dvr, _dvb ? _dvv : _dvr, _dvb); *(g) = _dvr; _dvb; })
+
+#undef os_atomic_load
+#define os_atomic_load(p, m) _dv_load(p, m, #p)
+#undef os_atomic_store
+#define os_atomic_store(p, v, m) _dv_store(p, v, m, #p)
+#undef os_atomic_xchg
+#define os_atomic_xchg(p, v, m) _dv_xchg(p, v, m, #p)
+#undef os_atomic_cmpxchg
+#define os_atomic_cmpxchg(p, e, v, m) _dv_cmpxchg(p, e, v, m, #p)
+#undef os_atomic_cmpxchgv
+#define os_atomic_cmpxchgv(p, e, v, g, m) _dv_cmpxchgv(p, e, v, g, m, #p)
+#undef os_atomic_cmpxchgvw
+#define os_atomic_cmpxchgvw(p, e, v, g, m) _dv_cmpxchgvw(p, e, v, g, m, #p)
+
+#undef _os_atomic_c11_op
+#define _os_atomic_c11_op(p, v, m, o, op) ({ _dv_site(#p, #o, m); \
+		__typeof__(p) _dvp = (p); \
+		_os_atomic_basetypeof(_dvp) _dvv = (v), _dvr; _dv_pre(_dvp); \
+		_dvr = atomic_fetch_##o##_explicit(_os_atomic_c11_atomic(_dvp), _dvv, \
+				memory_order_##m); \
+		_dv_post(_dvp, _dvr, (__typeof__(_dvr))(_dvr op _dvv), 1); \
+		(__typeof__(_dvr))(_dvr op _dvv); })
+#undef _os_atomic_c11_op_orig
+#define _os_atomic_c11_op_orig(p, v, m, o, op) ({ _dv_site(#p, #o, m); \
+		__typeof__(p) _dvp = (p); \
+		_os_atomic_basetypeof(_dvp) _dvv = (v), _dvr; _dv_pre(_dvp); \
+		_dvr = atomic_fetch_##o##_explicit(_os_atomic_c11_atomic(_dvp), _dvv, \
+				memory_order_##m); \
+		_dv_post(_dvp, _dvr, (__typeof__(_dvr))(_dvr op _dvv), 1); \
+		_dvr; })
+
+#undef os_atomic_thread_fence
+#define os_atomic_thread_fence(m) ({ _dv_site("", "fence", m); \
+		_dv_pre((const volatile char *)0); \
+		atomic_thread_fence(memory_order_##m); \
+		_dv_post((const volatile char *)0, 0, 0, 1); })
+
+// the rmw loop is redefined so that its accesses keep the name of the
+// word they operate on (they would otherwise all be labelled "_p")
+#undef os_atomic_rmw_loop
+#define os_atomic_rmw_loop(p, ov, nv, m, ...)  ({ \
+		bool _result = false; \
+		__typeof__(p) _p = (p); \
+		ov = _dv_load(_p, relaxed, #p); \
+		do { \
+			__VA_ARGS__; \
+			_result = _dv_cmpxchgvw(_p, ov, nv, &ov, m, #p); \
+		} while (unlikely(!_result)); \
+		_result; \
+	})
+#undef os_atomic_rmw_loop_give_up_with_fence
+#define os_atomic_rmw_loop_give_up_with_fence(m, expr) \
+		({ { _dv_site("", "giveup", m); \
+		_dv_pre((const volatile char *)0); \
+		atomic_thread_fence(memory_order_##m); \
+		_dv_post((const volatile char *)0, 0, 0, 1); } \
+		expr; __builtin_unreachable(); })
+#else
+#define DISPATCH_VERIF_PROBE(kind, obj, a, b) ((void)0)
+#endif // DISPATCH_VERIF
+
 #endif // __DISPATCH_SHIMS_ATOMIC__
